@@ -1,10 +1,10 @@
 (* Property C19: lattice geometry - index maps are bijections and couplings are enumerated exactly.
-   Only statements; every proof is `exact <lemma from Proofs/LatticeP.v, LatticeP2.v, LatticeP3.v ... LatticeP7.v>`.
+   Only statements; every proof is `exact <lemma from Proofs/LatticeP.v, LatticeP2.v, LatticeP3.v ... LatticeP8.v>`.
    All theorems hold for every dimension (1 + length (Lr lat)), all sizes, every unit cell size and
    every order array that lists distinct sites of the box (regular lattices: all of them; irregular
    lattices: a subset), finite and infinite MPS boundary conditions. *)
 From TenpyV Require Import Base.Prelude Model.Lattice Model.LatticeVals Model.LatticeMulti Model.LatticeTransform.
-From TenpyV Require Import Proofs.LatticeP Proofs.LatticeP2 Proofs.LatticeP3 Proofs.LatticeP4 Proofs.LatticeP5 Proofs.LatticeP6 Proofs.LatticeP7 Proofs.LatticeTransformP.
+From TenpyV Require Import Proofs.LatticeP Proofs.LatticeP2 Proofs.LatticeP3 Proofs.LatticeP4 Proofs.LatticeP5 Proofs.LatticeP6 Proofs.LatticeP7 Proofs.LatticeP8 Proofs.LatticeTransformP.
 Open Scope Z_scope.
 
 (* get_order with priority=None (C-style and every combination of snake flags) enumerates every lattice
@@ -267,6 +267,30 @@ Example T19_example_enlarge :
   mps2lat (enlarge 3 ex_snake_inf) 9 = Some (4, [1], 0) /\ mps2lat ex_snake_inf 9 = Some (4, [1], 0).
 Proof. vm_compute. repeat split. discriminate. Qed.
 
+(* enlarge_mps_unit_cell(f) keeps the couplings: (i, j) is a coupling (u1, u2, dx) of the enlarged infinite lattice
+   iff it is one of the f translates, by m * N_sites with 0 <= m < f, of a coupling of the original lattice - so a
+   model built on the enlarged lattice has the same Hamiltonian.  Any dimension, order, bc and bc_shift, any f >= 1.
+   (Specification level: `coupled`; that possible_couplings of the enlarged lattice lists exactly these is
+   T19_couplings_exact for a well-formed enlarged lattice and is run against the code in the stream
+   model-transform.) *)
+Theorem T19_enlarge_keeps_couplings : forall (f : nat) lat, (0 < f)%nat -> wf lat -> infinite lat = true ->
+  forall u1 u2 dx0 dxr i j,
+  coupled (enlarge f lat) u1 u2 dx0 dxr i j <->
+  exists m, 0 <= m < Z.of_nat f /\
+    coupled lat u1 u2 dx0 dxr (i - m * nsites lat) (j - m * nsites lat).
+Proof. exact enlarge_couplings. Qed.
+
+(* its hypotheses hold for the snake-ordered 2x2 lattice above *)
+Example T19_example_enlarge_wf : wf ex_snake_inf /\ infinite ex_snake_inf = true.
+Proof.
+  split; [|reflexivity].
+  constructor; cbn; try lia; try discriminate.
+  - repeat constructor; lia.
+  - repeat constructor; cbn; lia.
+  - repeat (constructor; [cbn; intuition congruence|]). constructor.
+  - intros _. split; [reflexivity|discriminate].
+Qed.
+
 (* MultiSpeciesLattice: u = simple_u * N_species + species (simple_u_to_species_u) is a bijection between
    (site of the simple unit cell, species) and the unit cell indices 0 <= u < simple_Lu * N_species, inverted by
    self_u_to_simple_u = u // N_species and self_u_to_species_idx = u % N_species. *)
@@ -352,3 +376,4 @@ Print Assumptions T19_couplings_reverse.
 Print Assumptions T19_two_operator_multi_coupling.
 Print Assumptions T19_multi_couplings_operator_order.
 Print Assumptions T19_couplings_translation.
+Print Assumptions T19_enlarge_keeps_couplings.
